@@ -244,6 +244,22 @@ def run(ctx):
                      document=doc, deleted=order, dump=out, expected="Origin: debian\n" + rest)
             break
     if not t.fail:
+        # only the paragraph is kept (the file object it came from is gone): adding a field still supplies the missing newline
+        import gc
+        for doc_ in ("Package: foo\nArchitecture: any", "A: 1", "A: 1\n# c\nB: x\n y"):
+            try:
+                p_ = next(iter(repro.parse_deb822_file(doc_.splitlines(True))))
+                gc.collect()
+                p_["Section"] = "misc"
+                out_ = p_.dump()
+            except Exception as e:
+                t.failed("adding a field to a paragraph whose file object is gone raised %r" % (e,), document=doc_)
+                break
+            t.case(key=("paragraph only", doc_))
+            if out_ != doc_ + "\nSection: misc\n":
+                t.failed("a field added to the paragraph of an unterminated file is not placed on a line of its own", document=doc_, dump=out_)
+                break
+    if not t.fail:
         rm.large_documents(repro, t)
     t.done()
     ctx.level = "other"
